@@ -87,6 +87,19 @@ pub fn run(ctx: &Ctx, rep: &mut Report) {
             }
         }
     }
+    {
+        use rand::rngs::SmallRng;
+        use rand::{RngCore, SeedableRng};
+        let mut seen = std::collections::HashSet::new();
+        let mut dup = 0;
+        for _ in 0..2_000_000 {
+            let mut r = SmallRng::from_os_rng();
+            if !seen.insert(r.next_u64()) {
+                dup += 1;
+            }
+        }
+        println!("from_os_rng duplicates among 2e6 first outputs: {dup}");
+    }
     println!("done");
     rep.eval();
 }
